@@ -59,6 +59,7 @@ type task struct {
 	mapCalls map[int32]int
 	prio     int
 	phase    string
+	selects  int
 	inOp     bool // between Pre and Post of an instrumented operation (operand evaluation may yield in between)
 }
 
@@ -228,6 +229,18 @@ func install() {
 		}
 		r := world.NewRng(world.Mix(world.Mix(e.w.MapSeed, uint64(site)), uint64(calls)))
 		e.res.Faults["map-permutation"]++
+		return r.Perm(n)
+	}
+	verifrt.SelectHook = func(site int32, n int) []int {
+		e := cur
+		if e == nil || e.running == nil {
+			return nil
+		}
+		t := e.running
+		t.selects++
+		// every case is polled, in an order that is a pure function of the world
+		r := world.NewRng(world.Mix(world.Mix(e.w.Sched.Seed^0x5e1ec7, uint64(t.id)), uint64(t.selects)))
+		e.res.Faults["select-order-chosen"]++
 		return r.Perm(n)
 	}
 	verifrt.BuggifyHook = func(name string) bool {
